@@ -324,7 +324,10 @@ def check_block(prog: Program, res: Result) -> None:
     res.ob(R, repr(c.get("centroids")) == repr(f), "InstanceCentroidFinder", f"centroids {c.get('centroids')!r} == generate_centroids {f!r}", f"block {c.get('centroids')!r} vs function {f!r}", "")
     cf = prog.cls(f"{D}.instance_centroids:InstanceCentroidFinder").methods["__iter__"]
     calls = [cc for cc, q in prog.calls_in(cf) if q == f"{D}.instance_centroids:generate_centroids"]
-    ok = len(calls) == 1 and norm(calls[0].args[0]) == "ex['instances']" and {k.arg: norm(k.value) for k in calls[0].keywords} == {"anchor_ind": "self.anchor_ind"}
+    ok = len(calls) == 1
+    if ok:
+        bnd = astq.bind_args(prog.func(f"{D}.instance_centroids:generate_centroids"), calls[0])
+        ok = astq.xnorm(cf.node, bnd.get("points")).replace('"', "'") == "ex['instances']" and norm(bnd.get("anchor_ind")) == "self.anchor_ind"
     res.ob(R, ok, cf.qualname, "block delegates to generate_centroids(ex['instances'], anchor_ind=self.anchor_ind)", "InstanceCentroidFinder no longer delegates to generate_centroids", cf.where)
     # InstanceCropper
     I, c = run_block(f"{D}.instance_cropping:InstanceCropper", {"crop_hw": Tup((Other("h"), Other("w")))})
